@@ -115,13 +115,16 @@ def same_result(E, r1, r2, what):
 
 def call_forms(E, f, L, idx, kw, star):
     sub = [L[i] for i in idx]
+    note = ""
+    if kw.get("MRTS") == "auto":
+        note = " [indices=%s of %d trains, MRTS='auto']" % (list(idx), len(L))
     with hx.quiet():
         rA = f(L, indices=list(idx), **kw)
         rB = f(sub, **kw)
-        same_result(E, rA, rB, "f(L, indices=idx) = f(sub-list)")
+        same_result(E, rA, rB, "f(L, indices=idx) = f(sub-list)" + note)
         if star:
             rC = f(*sub, **kw)
-            same_result(E, rC, rB, "f(*sub) = f(sub-list)")
+            same_result(E, rC, rB, "f(*sub) = f(sub-list)" + note)
 
 
 def program(E, cfg):
